@@ -24,7 +24,7 @@ RULE = ('a multiset of 1-6 well-formed entries (home + volume trash dirs) is mix
         'payload without info, CRLF); each of trash-list, trash-restore (every sort), trash-rm PATTERN, trash-empty [DAYS] is run on the trash '
         'with and without the malformed entries under a per-case directory order; distinct = (reader + args class, sorted malformed kinds)')
 ASSUMPTIONS = ["a malformed entry that still carries a parseable Path (missing/bad date, no payload, CRLF) is itself a listable entry; only the well-formed entries' outcomes are compared"]
-PROBES = ['list', 'restore', 'rm', 'empty', 'empty-days', 'wellformed-entries', 'malformed-entries', 'diagnostic-printed', 'traceback-harmless',
+PROBES = ['trash-dir-with-hundreds-of-entries', 'list', 'restore', 'rm', 'empty', 'empty-days', 'wellformed-entries', 'malformed-entries', 'diagnostic-printed', 'traceback-harmless',
           'small-descriptor-limit']
 TECHNIQUE = 'deterministic simulation, differential: trash with vs without malformed neighbours, all four readers, seeded directory order'
 LEVEL_TEXT = 'seeded exploration of mixtures x readers x arguments x directory orders; isolation judged by comparing the well-formed entries\' outcomes'
@@ -37,7 +37,7 @@ def gen(rng):
     steps = L['steps']
     env, uid, home = dict(L['env']), L['uid'], L['home']
     names = ['alpha', 'beta', 'gamma', 'delta', 'alp', 'Beta']
-    made = TG.populate(rng, L, steps, n=rng.choice([1, 2, 2, 3, 4, 6]), names=names, kinds=('file', 'dir'))
+    made = TG.populate(rng, L, steps, n=rng.choice([1, 2, 2, 3, 4, 6]), names=names, kinds=('file', 'dir'), bulk=0.002)
     locs = [t for t in TG.trash_locations(L) if t[2]]
     used_dirs = sorted(set(m[0] for m in made)) or [locs[0][0]]
     extra = []
@@ -98,6 +98,8 @@ def run_reader(sim, case, with_extra, st, target=None):
     spec = c['procs'][0]
     env, uid = spec.get('env', {}), spec.get('uid', 1000)
     snap0 = sim.snap()
+    if len(case['world']['steps']) > 400:
+        st.probes['trash-dir-with-hundreds-of-entries'] += 1
     kw = {}
     if posixpath.basename(spec['argv'][0]) == 'trash-restore' and target is not None:
         def user(out):
